@@ -1123,6 +1123,30 @@ def main():
     items.insert(0, (lpgen.LP(False, Fraction(0), [(Fraction(1), Fraction(0), None)], [(Fraction(1, 7), {0: Fraction(1, 3)}, None)], "hist"),
                      {"sync": "auto", "steps": [{"set": dict(H_DEFAULT, eqtrans=1), "edits": [], "real": False}, {"set": dict(H_DEFAULT, eqtrans=0), "edits": [], "real": False},
                                                 {"set": dict(H_DEFAULT, eqtrans=1), "edits": [("obj", 0, Fraction(2, 7))], "real": False}]}))
+    # more inequality rows than columns, equality transformation on, then off: the slack columns of the first solve must be forgotten
+    # (witness of the defect repaired in /repo 'fix: _untransformEquality forgets the slack columns': 1 column, 7 rows)
+    F = Fraction
+    tall = lpgen.LP(False, F(0), [(F(1, 3), F(0), F(11, 21))],
+                    [(F(25, 189), {0: F(5, 3)}, None), (None, {0: F(1, 7)}, F(20, 441)), (F(10, 77), {0: F(6, 11)}, None), (F(10, 441), {0: F(2, 7)}, None),
+                     (None, {0: F(1, 9)}, F(5, 189)), (None, {0: F(-8, 7)}, F(-160, 441)), (F(10, 1323), {0: F(2, 21)}, None)], "hist")
+    items.insert(1, (tall, {"sync": "auto", "steps": [{"set": dict(H_DEFAULT, eqtrans=1), "edits": [], "real": False},
+                                                      {"set": dict(H_DEFAULT, eqtrans=0, boosted_warm_start=0), "edits": [], "real": False},
+                                                      {"set": dict(H_DEFAULT, eqtrans=1), "edits": [], "real": False}]}))
+    for k in range(6 if quick else 60):
+        n = r.randrange(1, 3)
+        m = r.randrange(n + 2, n + 7)
+        cols = [(F(r.randrange(-3, 4), r.choice([1, 3, 7])), F(0), (F(r.randrange(1, 20), r.choice([1, 3, 21])) if r.random() < 0.5 else None)) for _ in range(n)]
+        rows = []
+        for _ in range(m):
+            co = {j: F(r.choice([-8, -3, -1, 1, 2, 5, 6]), r.choice([1, 3, 7, 9, 11])) for j in range(n) if r.random() < 0.8}
+            if not co:
+                co = {0: F(1, 3)}
+            b = F(r.randrange(-20, 40), r.choice([1, 7, 9, 21]))
+            rows.append((b, co, None) if r.random() < 0.5 else (None, co, b))
+        p0 = lpgen.LP(r.random() < 0.5, F(0), cols, rows, "hist")
+        items.append((p0, {"sync": "auto", "steps": [{"set": dict(H_DEFAULT, eqtrans=1), "edits": [], "real": False},
+                                                     {"set": dict(H_DEFAULT, eqtrans=0, boosted_warm_start=r.randrange(2)), "edits": [], "real": False},
+                                                     {"set": dict(H_DEFAULT, eqtrans=r.randrange(2)), "edits": [], "real": False}]}))
     for _ in range(14 if quick else 200):
         items.append(gen_tiny_cost_history(r))
     for _ in range(24 if quick else 400):
